@@ -696,6 +696,41 @@ func GenGens(g G, pal Palette, allowErr bool) []GenSpec {
 	return gs
 }
 
+// CaseTwinSubtype rewrites the subtype label of ONE randomly chosen label
+// occurrence of sc (a supplied value, a parameter or a result) into its
+// upper-case twin ("s" -> "S"). Subtype labels are compared exactly: a twin
+// is a different label. It reports whether something was rewritten.
+func CaseTwinSubtype(g G, sc *Scenario) bool {
+	var spots []*Label
+	for i := range sc.Inputs {
+		spots = append(spots, &sc.Inputs[i].L)
+	}
+	fs := []*FuncSpec{&sc.Target}
+	for i := range sc.Convs {
+		fs = append(fs, &sc.Convs[i])
+	}
+	for _, f := range fs {
+		for i := range f.In {
+			spots = append(spots, &f.In[i])
+		}
+		for i := range f.Out {
+			spots = append(spots, &f.Out[i])
+		}
+	}
+	var cands []*Label
+	for _, l := range spots {
+		if l.Sub != "" && strings.ToUpper(l.Sub) != l.Sub {
+			cands = append(cands, l)
+		}
+	}
+	if len(cands) == 0 {
+		return false
+	}
+	l := Pick(g, cands)
+	l.Sub = strings.ToUpper(l.Sub)
+	return true
+}
+
 // GeneratorizeMid replaces one mid-chain converter of sc -- a single type-only
 // input and a single type-only output, no subtypes, whose input type occurs
 // neither among the supplied values nor among the target's parameters, i.e.
